@@ -286,7 +286,7 @@ def sample_behaviour(path):
 
 # ----------------------------------------------------------------------------------------------------------------
 def generic_core_check(prop, tier, replay, level, mc_list, sim_list, go_tests, invariants, known_map=None, known_mc=None,
-                       rule="", assumptions=(), extra_env=None, nsim=None, depth=None, pair_check=False):
+                       rule="", assumptions=(), extra_env=None, nsim=None, depth=None, pair_check=False, sess=None):
     v = vlib.Verdict(prop, tier, level)
     scr = vlib.Scratch(prop.lower())
     thorough = tier == "thorough"
@@ -322,6 +322,12 @@ def generic_core_check(prop, tier, replay, level, mc_list, sim_list, go_tests, i
         for n in names:
             validate_traces(v, scr, prop, os.path.join(outd, n + ".ndjson"), n, invariants, known_map,
                             conformance=(n != "core_pairs"))
+        # 6. the same property at session level (real UDPSession / Listener over the in-memory network)
+        if sess:
+            import checks_sess
+            checks_sess.sess_stage(v, scr, prop, sess["invariants"], dict(SESS_RUNS=(sess.get("runs", 100) * (10 if thorough else 1)), **sess.get("env", {})),
+                                   tests=sess.get("tests", "TestSessTransfer$"), names=sess.get("names", ("sess_transfer",)))
+            rule += "; session level: " + checks_sess.RULE_TRANSFER
         v.cov["rule"] = rule
         v.cov["samples"] = [sample_behaviour(bpath)]
         v.assumptions = list(assumptions)
@@ -371,7 +377,8 @@ def check_c01(tier, replay):
               "behaviour containing at least one drop, duplicate, out-of-order delivery or RTO retransmission"),
         assumptions=["genuine peers (traces with forged segments are excluded from C01)", "payload abstracted to (offset,len) in the model; "
                      "byte equality checked by the harness with a position-dependent pattern"],
-        extra_env=dict(CORE_FORGE=0))
+        extra_env=dict(CORE_FORGE=0),
+        sess=dict(invariants=["C01_ReadIsNextBytes", "C01_MessageBoundaries", "C09_WireReassembles", "C02_TransferCompletes"], runs=150))
 
 
 # C04
@@ -494,7 +501,8 @@ def check_c02(tier, replay):
               "both drives (K=4 quick, 6 thorough). Non-trivial as C01 / fate vector with at least one fault"),
         assumptions=["genuine peers", "the reader keeps reading after the heal", "bound = armed retransmission waits + probe back-off + "
                      "(segments+4)*(3*rto+4*interval) per endpoint (generous by design)"],
-        extra_env=dict(CORE_FORGE=0, CORE_SETTLE=1, FATES_K=6 if tier == "thorough" else 4), depth=100)
+        extra_env=dict(CORE_FORGE=0, CORE_SETTLE=1, FATES_K=6 if tier == "thorough" else 4), depth=100,
+        sess=dict(invariants=["C02_TransferCompletes", "C01_ReadIsNextBytes"], runs=150))
 
 
 # C03
@@ -524,4 +532,5 @@ def check_c03(tier, replay):
               "datagram lost during a sub-interval, windows 1..32, both drives -- then the settling phase; same monitors. "
               "Non-trivial = every stall run (each has a distinct pause point/length/loss interval/configuration)"),
         assumptions=["the writer is admitted like a session's Write (only while WaitSnd < snd_wnd)"],
-        extra_env=dict(CORE_FORGE=0, CORE_SETTLE=1), depth=100)
+        extra_env=dict(CORE_FORGE=0, CORE_SETTLE=1), depth=100,
+        sess=dict(invariants=["C02_TransferCompletes", "C01_ReadIsNextBytes"], runs=100, tests="TestSessStall$", names=("sess_stall",)))
